@@ -101,11 +101,21 @@ Inductive case :=
 | CaseOneSig (keys : list (N * list dnskey)) (set : list rr) (s : rrsig) (valid_now : bool)
              (t : list oracle) (ecp : list (list N * bool)) (ev : list (list N * list N * bool))
              (got ref eqdom : bool)
+             (* which error verifyOneSig returned: 0 nil, 1 ErrMissingSigned, 2 ErrMissingDNSKEY, 3 dns.ErrSig, 4 an error of the
+                library's packer, 5 ErrInvalidSignaturePeriod, 6 dns.ErrAlg, 9 another *)
+             (code : N)
   (* VerifyRRSIG(signer, keys, msg) = ok && err == nil on a whole message (answer and authority
      sections in order, each RRSIG with its ValidityPeriod(now)); ref: the Go-side reference *)
 | CaseMsg (signer : list N) (keys : list (N * list dnskey)) (answer ns : list mitem)
           (t : list oracle) (ecp : list (list N * bool)) (ev : list (list N * list N * bool))
           (got ref eqdom : bool)
+          (* which error VerifyRRSIG returned: as above, and 7 ErrNoSignatures *)
+          (code : N)
+  (* VerifyRRSIG on a message outside the property's domain (a signer field that is not fully qualified cannot come out
+     of the wire decoder): the walk model with its error is checked, nothing is judged — the witness of
+     sig_order_needs_fqdn_signers *)
+| CaseMsgProbe (signer : list N) (keys : list (N * list dnskey)) (answer ns : list mitem)
+          (t : list oracle) (ecp : list (list N * bool)) (ev : list (list N * list N * bool)) (code : N)
   (* internal/dnsname.CompareSuffix(a, b) as isSynthesizedCNAME uses it; lib: dns.CompareDomainName,
      wf: both names are well-formed and fully qualified (where the two must agree) *)
 | CaseSuffix (a b : list N) (got lib : N) (wf : bool)
@@ -184,14 +194,24 @@ Definition check_case (c : case) : bool :=
       && km_eqb (ds_matched_keys (tbl_H t) keymap dss) matched
   | CaseDSProbe keymap dss t u code =>
       let r := verify_ds_code (tbl_H t) keymap dss in Bool.eqb (fst r) u && (snd r =? code)
-  | CaseOneSig keys set s valid_now t ecp ev got _ _ =>
+  | CaseOneSig keys set s valid_now t ecp ev got _ _ code =>
       Bool.eqb (verify_one_sig_pm powmod_fast (tbl_H t) (tbl_ECP ecp) (fun _ pub dg sg => negb (is_nil dg) && tbl_EV ev pub sg)
                                (fun pub msg sg => existsb (fun o => list_eqb msg (o_msg o)) t && tbl_EV ev pub sg)
                                orc_LIBV keys set s valid_now) got
-  | CaseMsg signer keys answer ns t ecp ev got _ _ =>
+      && (verify_one_sig_code_pm powmod_fast (tbl_H t) (tbl_ECP ecp) (fun _ pub dg sg => negb (is_nil dg) && tbl_EV ev pub sg)
+                               (fun pub msg sg => existsb (fun o => list_eqb msg (o_msg o)) t && tbl_EV ev pub sg)
+                               orc_LIBV keys set s valid_now =? code)
+  | CaseMsg signer keys answer ns t ecp ev got _ _ code =>
       Bool.eqb (verify_rrsig_pm powmod_fast (tbl_H t) (tbl_ECP ecp) (fun _ pub dg sg => negb (is_nil dg) && tbl_EV ev pub sg)
                                (fun pub msg sg => existsb (fun o => list_eqb msg (o_msg o)) t && tbl_EV ev pub sg)
                                orc_LIBV signer keys answer ns) got
+      && (verify_rrsig_code_pm powmod_fast (tbl_H t) (tbl_ECP ecp) (fun _ pub dg sg => negb (is_nil dg) && tbl_EV ev pub sg)
+                               (fun pub msg sg => existsb (fun o => list_eqb msg (o_msg o)) t && tbl_EV ev pub sg)
+                               orc_LIBV signer keys answer ns =? code)
+  | CaseMsgProbe signer keys answer ns t ecp ev code =>
+      verify_rrsig_code_pm powmod_fast (tbl_H t) (tbl_ECP ecp) (fun _ pub dg sg => negb (is_nil dg) && tbl_EV ev pub sg)
+                               (fun pub msg sg => existsb (fun o => list_eqb msg (o_msg o)) t && tbl_EV ev pub sg)
+                               orc_LIBV signer keys answer ns =? code
   | CaseSuffix a b got _ _ => (compare_suffix a b =? got) && (compare_suffix_spec a b =? got)
   | CaseSynth owner target dnames got _ _ =>
       Bool.eqb (is_synthesized_cname owner target dnames) got && Bool.eqb (is_synthesized_cname_spec owner target dnames) got
@@ -349,10 +369,28 @@ Definition spec_case (c : case) : bool :=
       (* DSMatchedKeys returns exactly the keys the reference vouches for, and some key exactly when VerifyDS succeeds *)
       && km_same_sets matched refm && Bool.eqb (negb (is_nil matched)) (snd got)
   | CaseDSProbe _ _ _ _ _ => true
-  | CaseOneSig _ _ _ _ _ _ _ got ref eqdom =>
+  | CaseOneSig _ _ s valid_now _ _ _ got ref eqdom code =>
       implb' got ref && implb' eqdom (Bool.eqb got ref)
-  | CaseMsg _ _ _ _ _ _ _ got ref eqdom =>
+      (* nil exactly on acceptance; one of the documented errors; "validity period" only for a signature outside its period,
+         "algorithm" only for an algorithm number outside the documented set, and neither hides the other way round:
+         an accepted or crypto-refused signature was inside its period and of a documented algorithm *)
+      && Bool.eqb (code =? 0) got && (code <=? 6)
+      && implb' (code =? 5) (negb valid_now)
+      && implb' (code =? 6) (valid_now && negb (existsb (N.eqb (s_alg s)) [5; 7; 8; 10; 13; 14; 15]))
+      && implb' ((code =? 0) || (code =? 3)) (valid_now && existsb (N.eqb (s_alg s)) [5; 7; 8; 10; 13; 14; 15])
+  | CaseMsg _ keys answer ns _ _ _ got ref eqdom code =>
       implb' got ref && implb' eqdom (Bool.eqb got ref)
+      (* nil exactly on acceptance; one of the documented errors; "no signatures" only for a message without any RRSIG,
+         and a message with records to validate and no RRSIG at all is never reported as anything else than
+         that or a foreign answer record *)
+      && Bool.eqb (code =? 0) got && (code <=? 7)
+      && implb' (code =? 7) (is_nil (sigs_of answer ++ sigs_of ns) && negb (is_nil keys))
+      && implb' (is_nil keys) (code =? 2)
+      (* "validity period" only when some RRSIG of the message is outside its period, "algorithm" only when some RRSIG
+         names an algorithm outside the documented set *)
+      && implb' (code =? 5) (existsb (fun sv => negb (snd sv)) (sigs_of answer ++ sigs_of ns))
+      && implb' (code =? 6) (existsb (fun sv => negb (existsb (N.eqb (s_alg (fst sv))) [5; 7; 8; 10; 13; 14; 15])) (sigs_of answer ++ sigs_of ns))
+  | CaseMsgProbe _ _ _ _ _ _ _ _ => true
   | CaseSuffix _ _ got lib wf => implb' wf (got =? lib)
   | CaseSynth _ _ _ got ref wf => implb' wf (Bool.eqb got ref)
   end.
